@@ -121,9 +121,14 @@ def norm_model(line: str) -> list[str]:
     return sorted(out)
 
 
+class WrongFrames(Exception):
+    pass
+
+
 def decode_one(tr):
     frames = [f for w in tr.writes for f in live.decode_plain(w)]
-    assert len(frames) == 1, frames
+    if len(frames) != 1:
+        raise WrongFrames(frames)
     t, payload = frames[0]
     m = MESSAGE_TYPE_TO_PROTO[t]()
     m.ParseFromString(payload)
@@ -197,7 +202,12 @@ def run(ck: Check):
         except Exception as e:  # noqa: BLE001
             ck.violation(f"c15:raised:{method}", f"{method}({kwargs}) raised {type(e).__name__}: {e}", {"method": method})
             return
-        msg = decode_one(tr)
+        try:
+            msg = decode_one(tr)
+        except WrongFrames as e:
+            ck.violation(f"c15:frames:{method}", f"{method}({kwargs}) wrote {len(e.args[0])} frames (types {[t for t, _ in e.args[0]]}), not exactly one request",
+                         {"method": method, "kwargs": {k: str(v) for k, v in kwargs.items()}})
+            return
         got = msg_fields(msg)
         dist["calls"] += 1
         # --- model
@@ -288,7 +298,11 @@ def run(ck: Check):
                 ck.violation("c15:raised:execute_service", f"execute_service at API {apiv} with one argument of every type raised "
                              f"{type(e).__name__}: {e}", {"api_version": list(apiv), "i": ival})
                 continue
-            msg = decode_one(tr)
+            try:
+                msg = decode_one(tr)
+            except WrongFrames as e:
+                ck.violation("c15:frames:execute_service", f"execute_service wrote {len(e.args[0])} frames, not exactly one request", {"api_version": list(apiv)})
+                continue
             dist["service_calls"] += 1
             lines.append(f"cmd.svcint {apiv[0]} {apiv[1]}")
             a = msg.args[1]
